@@ -427,4 +427,7 @@ def run(P, R, L):
     grd8(P, R, L)
     R.clause("GRD-7", "the probe in Table::get uses the block handle's offset and the lookup key's user key; a miss is Err(KeyNotFound)")
     K.grd7(P, R, L)
+    from . import blind
+    R.clause("AGR-5", "builder and reader choose the filter by `offset / range size` with the offset exactly as it was handed in (no one-sided adjustment)")
+    blind.agr5_filter_index_from_the_plain_offset(P, R, L)
     R.not_decided += ["the Bloom arithmetic beyond writer/reader agreement (that the shared probe sequence stays inside the bit vector)", "filter-index arithmetic for a concrete offset"]
